@@ -1,7 +1,7 @@
 (* Model/Dispatch.v -- the single extracted entry point.  op numbers: <property>*100 + k *)
 From Coq Require Import ZArith List Bool.
 From B2Z Require Import Base.Prims Base.Sx Model.Partitions Model.IndexParse Model.BinArith Model.Schema Model.Overlap Model.Icf Model.RegionIndex Model.Plink Model.LocalAlleles.
-From B2Z Require Model.Regions Model.Workers Model.Footprint.
+From B2Z Require Model.Regions Model.Workers Model.Footprint Protocol.Exec.
 Import ListNotations.
 Open Scope Z_scope.
 
@@ -292,12 +292,71 @@ Definition d_C07 (k : Z) (arg : sx) : sx :=
   | _, _ => err_sx 2
   end.
 
+(* ---- C05 / C06 : protocol step machines ---- *)
+Definition un_pv {P} (f : sx -> option P) (s : sx) : option (P * Z) :=
+  match s with L [p; A v] => match f p with Some p => Some (p, v) | None => None end | _ => None end.
+Definition nfun (l : list Z) (j : nat) : nat := Z.to_nat (nth j l 0).
+Definition nfun2 (l : list (list Z)) (j a : nat) : nat := Z.to_nat (nth a (nth j l []) 0).
+Definition d_C05 (k : Z) (arg : sx) : sx :=
+  match k, arg with
+  (* one command (not killed) from an abstract state: new state, refused?, invariant, loads *)
+  | 0, L [nfiles; st; c] =>
+      match as_ZL nfiles, un_list (un_pv Exec.icf_un_path) st with
+      | Some nf, Some st =>
+          let np := length nf in let nfl := nfun nf in
+          let s := Exec.icf_state_of st in
+          match Exec.icf_cmd np nfl c with
+          | Some cmd =>
+              let steps := IcfProtocol.steps np true s cmd in
+              let s' := IcfProtocol.exec s steps in
+              L [Exec.icf_dump np nfl s'; of_bool (match steps with [] => true | _ => false end);
+                 of_bool (Exec.icf_inv_b np nfl s'); of_bool (Exec.icf_loads_b s'); of_bool (Exec.icf_complete_b np nfl s')]
+          | None => err_sx 1 end
+      | _, _ => err_sx 1 end
+  (* observations of an abstract state *)
+  | 1, L [nfiles; st] =>
+      match as_ZL nfiles, un_list (un_pv Exec.icf_un_path) st with
+      | Some nf, Some st =>
+          let np := length nf in let nfl := nfun nf in let s := Exec.icf_state_of st in
+          L [of_bool (Exec.icf_inv_b np nfl s); of_bool (Exec.icf_loads_b s); of_bool (Exec.icf_complete_b np nfl s)]
+      | _, _ => err_sx 1 end
+  | _, _ => err_sx 2
+  end.
+Definition d_C06 (k : Z) (arg : sx) : sx :=
+  match k, arg with
+  | 0, L [nent; st; c] =>
+      match as_ZLL nent, un_list (un_pv Exec.vcz_un_path) st with
+      | Some ne, Some st =>
+          let np := length ne in let na := length (hd [] ne) in let nef := nfun2 ne in
+          let s := Exec.vcz_state_of st in
+          match Exec.vcz_cmd c with
+          | Some cmd =>
+              let steps := VczProtocol.steps np na nef true s cmd in
+              let s' := VczProtocol.exec s steps in
+              L [Exec.vcz_dump np na nef s';
+                 of_bool (match cmd with
+                          | VczProtocol.Finalise => negb (existsb (fun st => match st with VczProtocol.Fill VczProtocol.PZmeta => true | _ => false end) steps)
+                          | _ => match steps with [] => true | _ => false end end);
+                 of_bool (Exec.vcz_inv_b np na nef s'); of_bool (Exec.vfull (s' VczProtocol.PZmeta)); of_bool (Exec.vcz_complete_b np na nef s')]
+          | None => err_sx 1 end
+      | _, _ => err_sx 1 end
+  | 1, L [nent; st] =>
+      match as_ZLL nent, un_list (un_pv Exec.vcz_un_path) st with
+      | Some ne, Some st =>
+          let np := length ne in let na := length (hd [] ne) in let nef := nfun2 ne in let s := Exec.vcz_state_of st in
+          L [of_bool (Exec.vcz_inv_b np na nef s); of_bool (Exec.vfull (s VczProtocol.PZmeta)); of_bool (Exec.vcz_complete_b np na nef s)]
+      | _, _ => err_sx 1 end
+  | _, _ => err_sx 2
+  end.
+
 Definition dispatch (op : Z) (arg : sx) : sx :=
   let p := op / 100 in
   let k := op mod 100 in
   match p with
   | 11 => d_C11 k arg
   | 4 => d_C04 k arg
+  | 5 => d_C05 k arg
+  | 6 => d_C06 k arg
   | 7 => d_C07 k arg
   | 8 => d_C08 k arg
   | 9 => d_C09 k arg
